@@ -104,11 +104,30 @@ def _prelude(case, b, out):
                 call("pre:sibling.dot_bracket", lambda: sb.dot_bracket, out)
 
 
+def _long_chains(tier):
+    """Two or three crossing stems separated by long unpaired stretches (chains of up to 12 000 / 40 000 nucleotides): the optimum depends on stem lengths
+    alone, never on where in the chain a stem sits."""
+    for P in ((60, 1500, 2600, 12000) if tier == "quick" else (60, 700, 1500, 2600, 5200, 12000, 40000)):
+        for la, lb in ((4, 5), (5, 4), (1, 2), (2, 1), (3, 3), (9, 10)):
+            a5 = list(range(1, la + 1))
+            b5 = list(range(P, P + lb))
+            a3 = list(range(P + lb + 7, P + lb + 7 + la))
+            b3 = list(range(a3[-1] + 1 + P // 3, a3[-1] + 1 + P // 3 + lb))
+            pairs = sorted([[i, j] for i, j in zip(a5, reversed(a3))] + [[i, j] for i, j in zip(b5, reversed(b3))])
+            yield dict(n=b3[-1] + 3, pairs=pairs, long=P)
+            # a third stem crossing the second one only, far downstream
+            c5 = list(range(b3[0] - 4 - la, b3[0] - 4))
+            c3 = list(range(b3[-1] + P, b3[-1] + P + la))
+            yield dict(n=c3[-1] + 1, pairs=sorted(pairs + [[i, j] for i, j in zip(c5, reversed(c3))]), long=P)
+
+
 def families(tier):
     q = tier == "quick"
     fams = [
+        ("long-chains", lambda: _long_chains(tier), 1),
         ("after-calls", lambda: _after_calls(tier), 1),
         ("many-stems", lambda: _many_stems(tier), 1),
+        ("many-groups", lambda: __import__("mc.props.c16", fromlist=["x"])._many_groups(), 1),
         ("M", lambda: enum2d.M(10 if q else 12), 1),
         ("D", lambda: enum2d.D(4, lens=(1, 2, 3)), 1),
         ("Lad", lambda: (c for c in _ladders(11 if q else 12) if q is False or c["ladder"] <= 10 or c["lengths"][1] == 2), 1),  # 11 mutually crossing stems (one length pattern in quick: ~10 s): a two-digit level number in the MILP read-back
